@@ -78,7 +78,9 @@ func checksummed(entropy []byte) []byte {
 
 func propC13RoundTrip(t *rapid.T) {
 	e, label := genEntropy(t)
-	pass := rapid.StringMatching(`[ -~]{0,24}`).Draw(t, "pass")
+	// printable-ASCII passphrases of every length class: short, around the wallet's own limit of 40
+	// characters, and long ones that span several hash blocks of the key-derivation function
+	pass := rapid.OneOf(rapid.StringMatching(`[ -~]{0,24}`), rapid.StringMatching(`[ -~]{25,48}`), rapid.StringMatching(`[ -~]{49,140}`)).Draw(t, "pass")
 	want, err := ref.Bip39Encode(e)
 	if err != nil {
 		t.Fatalf("ref: %v", err)
@@ -114,7 +116,7 @@ func propC13RoundTrip(t *rapid.T) {
 	if s2 := keystore.NewSeed(got, pass); !bytes.Equal(s2, wantSeed) {
 		t.Fatalf("NewSeed mismatch")
 	}
-	c13.Case(hkey("rt", e, pass), label != "random", "roundtrip:"+label, "size:"+itoa(len(e)))
+	c13.Case(hkey("rt", e, pass), label != "random", "roundtrip:"+label, "size:"+itoa(len(e)), "passphrase-length:"+map[bool]string{true: "<=24", false: map[bool]string{true: "25..48", false: ">48"}[len(pass) <= 48]}[len(pass) <= 24])
 	c13.Sample("roundtrip:"+label, 2, map[string]string{"entropy": hex.EncodeToString(e), "mnemonic": got, "pass": pass})
 }
 
